@@ -893,9 +893,9 @@ theorem C18_bps_bridge (x b : Nat) : mulFloor x (bps b) = x * b / 10000 := by
   unfold mulFloor bps
   have : x * (b * 10 ^ 14) = (x * b) * 10 ^ 14 := by rw [Nat.mul_assoc]
   rw [this]
-  have h18 : (10 : Nat) ^ 18 = 10000 * 10 ^ 14 := by decide
+  have h18 : (10 : Nat) ^ 18 = 10000 * 10 ^ 14 := by omega
   rw [h18]
-  exact Nat.mul_div_mul_right (x * b) 10000 (by decide)
+  exact Nat.mul_div_mul_right (x * b) 10000 (by omega)
 
 /-- what a fee split pays out: everything adds up to the price, the seller gets `price − floor(price·bps/10000)` -/
 theorem C18_mintMsgs (price : Coin) (b : Nat) (featured : Bool) (dev : Option Addr) (ms : List Msg)
@@ -908,104 +908,5 @@ theorem C18_mintMsgs (price : Coin) (b : Nat) (featured : Bool) (dev : Option Ad
   split at h
   · cases h
   · cases h; exact ⟨by omega, rfl⟩
-
-/-- a public mint on a vending / open-edition minter splits the minter's price by the factory's CURRENT `mint_fee_bps`
-(and, open edition, pays the developer share to the CURRENT `dev_fee_address`) -/
-theorem C18_observed_mint (P : Params) (r r' : MinterRec) (now : Nat) (funds : List Coin) (ms : List Msg)
-    (h : mint P r now funds = .ok (r', ms)) (hk : r.kind ≠ .base) :
-    ∃ b, P.mintFeeBps = some b ∧ mintMsgs r.price b r.kind.isFeatured P.dev = .ok ms ∧
-      mayPay funds r.price.denom = .ok r.price.amount := by
-  simp only [mint, hk, if_false, bind, Except.bind, pure, Except.pure, throw, throwThe, MonadExceptOf.throw] at h
-  repeat' split at h
-  all_goals first | cases h | skip
-  all_goals simp_all
-
-/-- base minter: the payment must equal the CAPTURED price times the factory's CURRENT `mint_fee_bps` -/
-theorem C18_observed_mint_base (P : Params) (r r' : MinterRec) (now : Nat) (funds : List Coin) (ms : List Msg)
-    (h : mint P r now funds = .ok (r', ms)) (hk : r.kind = .base) :
-    ∃ b, P.mintFeeBps = some b ∧ mustPay funds NATIVE = .ok (r.price.amount * b / 10000) ∧ r' = r := by
-  simp only [mint, hk, if_true, bind, Except.bind, pure, Except.pure, throw, throwThe, MonadExceptOf.throw,
-    C18_bps_bridge] at h
-  repeat' split at h
-  all_goals first | cases h | skip
-  all_goals simp_all
-
-/-- an airdrop (`MintTo`) charges the factory's CURRENT airdrop price and splits it by the CURRENT airdrop fee bps -/
-theorem C18_observed_airdrop (P : Params) (r r' : MinterRec) (funds : List Coin) (ms : List Msg)
-    (h : airdrop P r funds = .ok (r', ms)) :
-    ∃ price b, P.airdropPrice = some price ∧ P.airdropBps = some b ∧
-      mayPay funds price.denom = .ok price.amount ∧ mintMsgs price b r.kind.isFeatured P.dev = .ok ms := by
-  simp only [airdrop, bind, Except.bind, pure, Except.pure, throw, throwThe, MonadExceptOf.throw] at h
-  repeat' split at h
-  all_goals first | cases h | skip
-  all_goals simp_all
-
-/-- `UpdatePerAddressLimit` is accepted only within the factory's CURRENT `max_per_address_limit` -/
-theorem C18_observed_pal (P : Params) (r r' : MinterRec) (limit : Nat) (h : setPal P r limit = .ok r') :
-    ∃ m, P.maxPal = some m ∧ 0 < limit ∧ limit ≤ m ∧ r'.pal = limit := by
-  simp only [setPal, bind, Except.bind, pure, Except.pure, throw, throwThe, MonadExceptOf.throw] at h
-  repeat' split at h
-  all_goals first | cases h | skip
-  all_goals simp_all
-  all_goals omega
-
-/-- `Shuffle` needs at least the factory's CURRENT shuffle fee -/
-theorem C18_observed_shuffle (P : Params) (r : MinterRec) (funds : List Coin) (ms : List Msg)
-    (h : shuffle P r funds = .ok ms) :
-    ∃ fee pay, P.shuffleFee = some fee ∧ mayPay funds NATIVE = .ok pay ∧ fee.amount ≤ pay := by
-  simp only [shuffle, Sg1.checkedFairBurn, bind, Except.bind, pure, Except.pure, throw, throwThe, MonadExceptOf.throw] at h
-  cases hs : P.shuffleFee with
-  | none => simp [hs] at h; repeat' split at h
-            all_goals first | cases h | skip
-  | some fee =>
-    cases hm : mayPay funds NATIVE with
-    | error x => simp [hs, hm] at h; repeat' split at h
-                 all_goals first | cases h | skip
-    | ok pay =>
-      refine ⟨fee, pay, rfl, rfl, ?_⟩
-      by_cases hlt : pay < fee.amount
-      · simp [hs, hm, hlt] at h; repeat' split at h
-        all_goals first | cases h | skip
-      · omega
-
-/-- `UpdateMintPrice` is accepted only at or above the factory's CURRENT minimum mint price -/
-theorem C18_observed_min_price (P : Params) (r r' : MinterRec) (now price : Nat) (h : setPrice P r now price = .ok r') :
-    ∃ m, P.minMintPrice = some m ∧ m.amount ≤ price ∧ r'.price.amount = price := by
-  simp only [setPrice, bind, Except.bind, pure, Except.pure, throw, throwThe, MonadExceptOf.throw] at h
-  repeat' split at h
-  all_goals first | cases h | skip
-  all_goals simp_all
-  all_goals omega
-
-/-- `UpdateStartTradingTime(Some t)` is accepted only within the factory's CURRENT `max_trading_offset_secs` after the
-minter's start time (the base minter has no such bound) -/
-theorem C18_observed_offset (P : Params) (r : MinterRec) (now t : Nat)
-    (h : updateStartTradingTime P r now (some t) = .ok ()) (hk : r.kind ≠ .base) :
-    now ≤ t ∧ t ≤ r.start + P.offset * 1000000000 := by
-  simp only [updateStartTradingTime, nanos] at h
-  repeat' split at h
-  all_goals first | cases h | skip
-  all_goals simp_all
-  all_goals omega
-
-/-! ### values captured at creation stay -/
-
-/-- after ANY history, a base minter's price is still the `min_mint_price` its factory had when it was created, unless
-... nothing: no operation of the model rewrites a base minter's price (`setPrice` refuses base minters). Stated for one
-step; histories follow by induction with `C18_captured` for updates. -/
-theorem C18_captured_base_price (P : Params) (r r' : MinterRec) (now price : Nat) (hk : r.kind = .base) :
-    setPrice P r now price ≠ .ok r' := by
-  simp [setPrice, hk, MinterKind.isVending, MinterKind.isOe, MinterKind.idx, bind, Except.bind, throw, throwThe,
-    MonadExceptOf.throw]
-
-/-- the open-edition cap: a minter created without `num_tokens` stores the factory's `max_token_limit` of that moment
-(the wl-flex variant stores nothing: unlimited) -/
-theorem C18_captured_oe_cap (e : Env) (q : OeParams) (a : CreateArgs) (r : MinterRec) (ms : List Msg)
-    (h : create e (.o q) a = .ok (r, ms)) (hn : a.numTokens = none) :
-    r.mintable = if r.kind = .openEditionFlex then none else some q.ext.maxTokenLimit := by
-  simp only [create, bind, Except.bind, pure, Except.pure, throw, throwThe, MonadExceptOf.throw, hn] at h
-  repeat' split at h
-  all_goals first | cases h | skip
-  all_goals simp_all
 
 end LP
